@@ -203,6 +203,7 @@ class SchedLock:
         self.quiet = quiet
 
     def acquire(self, blocking=True, timeout=-1):
+        self.acquisitions = getattr(self, "acquisitions", 0) + 1
         s = SCHED
         me = s.me() if s is not None else None
         if me is None or self.quiet:
@@ -525,6 +526,20 @@ def exec_reg(scn, serial, preempts, gran):
 
             def reg(key, value):
                 target.overload([key, key])(prebuilt[(key, value.value)])
+    elif scn.get("via") == "implements":
+        # registration through an interface implementation class: `@Iface.implementation(alias) class _: m = value`
+        from labrea import interface
+
+        @interface(dispatch="K")
+        class Iface:
+            @staticmethod
+            def m() -> int:
+                return -1
+        target = Iface.m
+        ov_of = lambda: target.overloads
+
+        def reg(key, value):
+            Iface.implementation(key)(type("Impl_%s" % (key,), (), {"m": value.value}))
     else:
         target = OV.Overloaded(Option("K"), {}, Value(-1))
         ov_of = lambda: target
@@ -547,8 +562,10 @@ def exec_reg(scn, serial, preempts, gran):
             table[str(key)] = target.evaluate({"K": key})
         except Exception as e:
             table[str(key)] = "E:" + type(e).__name__
+    acquired = getattr(ov_of()._lock, "acquisitions", 0)
     OV._LOCKS.pop(id(ov_of()), None)
-    return s, {"commits": [lab for _, lab in s.commits], "table": table}
+    return s, {"commits": [lab for _, lab in s.commits], "table": table, "lock_acquisitions_at_least_one_per_registration":
+               acquired >= sum(len(p) for p in progs)}
 
 
 # ------------------------------------------------------------------ scenario (c): cached dataset
@@ -680,6 +697,10 @@ def explore(job):
                 seen.add(pre)
                 spent += 1
                 s = run(dict(pre), gran, cost)
+                if depth == 0 and scn.get("kind") == "reg" and gran != "op" and any(
+                        v["outcome"].get("lock_acquisitions_at_least_one_per_registration") is False for v in outcomes.values()):
+                    # an unprotected registration was seen: spend the budget on finding the schedule that loses an update
+                    cap = cap * 25
                 lv = "%s/%d" % (gran, cost)
                 stats["by_level"][lv] = stats["by_level"].get(lv, 0) + 1
                 for (k, me_en, alts) in s.choices:
@@ -951,6 +972,9 @@ def judge_ctx(scn, outcome, model_line: Optional[str]) -> List[Tuple[str, str]]:
 
 def judge_reg(scn, outcome, model_line: Optional[str]) -> List[Tuple[str, str]]:
     res = []
+    if outcome.get("lock_acquisitions_at_least_one_per_registration") is False:
+        res.append(("correspondence", "register: a registration completed without ever taking the table's lock: the step the "
+                                      "model treats as atomic (read the table, add the entry, store the table) is unprotected"))
     want = {}
     for i, prog in enumerate(scn["threads"]):
         for key, val in prog:
@@ -1037,6 +1061,8 @@ def scenarios(rng: random.Random, thorough: bool) -> List[Tuple[str, Dict[str, A
          {"kind": "reg", "via": "overload_list", "threads": [[[1, 10], [2, 20]], [[3, 30]]]}),
         ("b5 list-of-aliases form against plain register",
          {"kind": "reg", "via": "overload_list", "threads": [[[1, 10]], [[2, 20]], [[3, 30]]]}),
+        ("b6 interface implementations registered from two threads",
+         {"kind": "reg", "via": "implements", "threads": [[[1, 10]], [[2, 20]], [[3, 30]]]}),
         ("b3 two registrations each",
          {"kind": "reg", "via": "overloaded", "threads": [[[1, 10], [2, 20]], [[3, 30], [4, 40]]]}),
         ("c1 two evaluations with different options",
